@@ -196,6 +196,10 @@ def run_groups(ctx, groups, only_group=None, only_idx=None, case_timeout=300):
         n = fn.n_quick if ctx.tier == "quick" else fn.n_thorough
         if callable(n):
             n = n(ctx)
+        elif not fn.exhaustive:
+            # sizing: the per-group counts in the property modules are base counts (~2-4 s per check on 8 cores);
+            # quick runs 6x that (10-30 s), thorough 8x its own base (minutes on 16 cores).  VERIF_SCALE overrides.
+            n = int(n * float(os.environ.get("VERIF_SCALE", 6 if ctx.tier == "quick" else 8)) * getattr(fn, "scale", 1.0))
         idxs = range(n) if only_idx is None else [only_idx]
         for idx in idxs:
             if only_idx is None and idx % ctx.nshards != ctx.shard:
